@@ -244,7 +244,8 @@ template <class H> static void hash_case(int a, const char *name)
     uint8_t exp[32], got[32];
     int how = (int)rng_below(R, 6);
     fill_pattern(R, in.data(), inlen, pick_pattern(R));
-    if (how == 1 || how == 3) for (size_t i = 0; i < inlen; ++i) if (!in[i]) in[i] = 0x5a; /* C strings cannot hold NUL */
+    if (how == 1) for (size_t i = 0; i < inlen; ++i) if (!in[i]) in[i] = 0x5a; /* C strings cannot hold NUL; std::string can */
+    if (how == 3 && inlen && rng_below(R, 2)) in[rng_below(R, (uint32_t)inlen)] = 0;
     in[inlen] = 0;
     vf_progress("case=%llu cpp %s how=%d inlen=%zu", (unsigned long long)vf_case, name, how, inlen);
     ref_hash(a, exp, in.data(), inlen);
@@ -280,11 +281,12 @@ template <class X, size_t N> static void xof_case(int a, const char *name)
     std::vector<unsigned char> in(inlen + 1), custom(customlen + 1), exp(outlen + 1), got(outlen + 1);
     char fname[48];
     size_t fl = rng_below(R, 41);
-    int how = (int)rng_below(R, a ? 4 : 6);   /* xofa: the char* / std::string absorb overloads do not compile (compile probes report that) */
+    int how = (int)rng_below(R, 6);
     int ctor = (int)rng_below(R, 3);
     uint64_t declared = N >= ((size_t)1 << 29) ? 0 : N;
     rng_bytes(R, in.data(), inlen); rng_bytes(R, custom.data(), customlen);
-    if (how >= 4) for (size_t i = 0; i < inlen; ++i) if (!in[i]) in[i] = 0x33;
+    if (how == 4) for (size_t i = 0; i < inlen; ++i) if (!in[i]) in[i] = 0x33;
+    if (how == 5 && inlen && rng_below(R, 2)) in[rng_below(R, (uint32_t)inlen)] = 0;   /* std::string may hold NUL */
     in[inlen] = 0;
     for (size_t i = 0; i < fl; ++i) fname[i] = (char)(1 + rng_below(R, 255));
     fname[fl] = 0;
